@@ -39,11 +39,30 @@ PROPS['C10'] = dict(
     domain=[],
 )
 
+PROPS['C14'] = dict(
+    title='Whitespace corruption changes only whitespace and stays label-consistent',
+    groups=[dict(template='c14_corrupt.rs')],
+    kani=[dict(crate='float_lemmas', harnesses=['zero_prob_never_fires', 'clamp_keeps_unit_interval'],
+               domain='all f64 pairs with 0 <= r < 1 and p == 0.0 (complete over this domain: loop-free, fully symbolic)')],
+    claim='preprocessing::corrupt_whitespace (the boxed closure, lifted by rule R22 into a function of (iw_p, dw_p, use_graphemes, text, info)): returns Ok, never panics (the constructor assertion is the stated domain), and the output string is flat(co(cs, d)) for SOME decision bits d, one per character: a whitespace character is kept or dropped, a non-whitespace character is kept or gets ONE space in front and only if it is not the first character and its predecessor is not whitespace; a probability of value zero never fires (delete probability 0: no whitespace disappears; insert probability 0: none appears; float bridge = Kani lemma zero_prob_never_fires). Pure lemmas from that contract: for a clean text the corrupted character sequence is again clean and has the same non-whitespace characters (both modes, character level); in code-point mode the corrupted STRING satisfies the precondition ops_pre of whitespace::operations(corrupted, text), so contract C10 gives one label per input character and exact recovery by repair. The target is untouched by construction (the function receives the text by shared reference and returns a new String).',
+    not_covered=['grapheme mode at string level: that the grapheme segmentation of the corrupted STRING is the corrupted character sequence (an inserted space could in principle join a following cluster that starts with an extending code point) is not proved; the character-level statement holds in both modes',
+                 'determinism in (text, seed): follows from the generator being seeded with info.seed and nothing else being read, which is visible in the verified text but is not a postcondition (a change to an unseeded generator would be an unknown callee = undecided)',
+                 'apply(Part::Input, ..) / whitespace_correction_input (task.rs): closures over the tokenizer; the label-count consequence is the composition with C10 and C01, not a contract on those closures'],
+    assumptions=['CharString::new/chars/get_char split a string into characters; in code-point mode the characters are the code points (axiom_code_point_chars)',
+                 'rand: ChaCha8Rng::seed_from_u64 / random::<f64>() is a deterministic stream of values in [0,1)',
+                 'f64::clamp / f64 comparison are uninterpreted in Verus; only the Kani lemma relates them', 'itertools join("") concatenates', 'String + &str appends'],
+    domain=['at least one probability positive after clamping (the constructor assertion)'],
+    input_search=True,
+    bounded_probe=dict(label='corrupt_whitespace(string-level)', file='src/data/preprocessing.rs', line=329,
+                       what='the whole statement at STRING level in both modes through the public preprocessing() API (same non-whitespace characters, clean, operations/repair recover the text with one label per character, target untouched, deterministic, zero probabilities never fire); this is the only check of the grapheme-mode string-level clause',
+                       bound='every whitespace-clean text of at most 4 code points over {a, b, space, CR, LF, U+0001, U+0301, U+200D, U+0600, U+1F1E9, U+1100, U+1161, U+1F600} x use_graphemes in {true,false} x (iw,dw) in {(1,0),(0,1),(0.5,0.5)} x seeds 0..2'),
+)
+
 PROPS['C18'] = dict(
     title='Word matching is a longest common subsequence; edited words are its complement',
     groups=[dict(template='c18_match_words.rs')],
     claim='text::match_words_with: the returned pairs are strictly increasing in both coordinates, every pair matches under the given (total, deterministic) predicate, their number equals lcs of the two word sequences (table proved equal to the LCS recurrence, backtrace panic unreachable), counts are the word counts; match_words instantiates it with (case-insensitive) word equality; edited_words == complement of the matched indices of that matching.',
-    not_covered=['str_match_fn (two closures of different types in an if/else): assumed to be word equality', 'split_ascii_whitespace: words_of is uninterpreted (ASCII whitespace separated words)'],
+    not_covered=['str_match_fn (two closures of different types in an if/else): assumed to be word equality', 'the splitters themselves: words_by(0,.) = str::split_ascii_whitespace and words_by(1,.) = str::split_whitespace are uninterpreted; the contract requires that ONE of them is used for both texts'],
     assumptions=['std max_by returns the last maximum', 'HashSet idioms of edited_words (vt_set_*)'],
     domain=[],
 )
